@@ -118,6 +118,66 @@ def witnesses(oc, prop, workdir):
     return traces
 
 
+def lattice_traces(oc, prop, tier, seed, workdir):
+    """C01/C03: the exactly representable finite subgroups (spec/LatticeGroups.tla, axioms checked exhaustively by TLC)
+    replayed on the real library: all pairs for SO2/SO3/SE2, sampled pairs for SE3/Galilei/SE_K_3; compared bit-exactly."""
+    import itertools
+    import random
+    import re
+    r = V.run_tlc("LatticeGroups", "LatticeGroups.cfg", workdir, workers=1, timeout=900)
+    if "No error has been found" not in r["out"]:
+        raise V.ToolFailure("LatticeGroups: an ASSUME failed or TLC crashed: " + r["out"][-1500:])
+    m = re.search(r'<<\s*"LATTICE",\s*(\{.*?\}),\s*(\{.*?\})\s*>>', r["out"], re.S)
+    if not m:
+        raise V.ToolFailure("LatticeGroups printed no lattice")
+    conv = lambda s: eval(s.replace("<<", "(").replace(">>", ")").replace("{", "[").replace("}", "]"))
+    so3 = [tuple(x / 2.0 for x in q) for q in conv(m.group(1))]
+    so2 = [tuple(float(x) for x in z) for z in conv(m.group(2))]
+    oc.states += max(r["distinct"], 2)
+    oc.extra["lattice"] = {"SO3_stored_elements": len(so3), "SO2_elements": len(so2),
+                           "axioms_checked_exhaustively_by_TLC": 14}
+    rng = random.Random(seed * 31 + 7)
+    t2 = list(itertools.product((-1.0, 0.0, 1.0), repeat=2))
+    t3 = list(itertools.product((-1.0, 0.0, 1.0), repeat=3))
+    elems = {
+        0: [list(z) for z in so2],
+        1: [list(q) for q in so3],
+        2: [list(t) + list(z) for t in t2 for z in so2],
+        3: [list(t) + list(q) for t in t3 for q in so3],
+        5: [list(v) + list(p) + [tau] + list(q) for v in t3[::5] for p in t3[::7] for tau in (-1.0, 0.0, 1.0) for q in so3],
+        6: [list(p1) + list(p2) + list(q) for p1 in t3[::5] for p2 in t3[::4] for q in so3],
+    }
+    quick = tier == "quick"
+    case = "c01x" if prop == "C01" else "c03x"
+    traces = []
+    exhaustive = []
+    for g, el in elems.items():
+        pairs = list(itertools.product(range(len(el)), repeat=2))
+        full = len(pairs) <= (500 if quick else 6000)
+        if not full:
+            pairs = rng.sample(pairs, 300 if quick else 6000)
+        else:
+            exhaustive.append(GROUPS[g])
+        lines = []
+        for i, j in pairs:
+            k = rng.randrange(len(el))
+            if case == "c01x":
+                lines.append("c01x " + " ; ".join(",".join(repr(x) for x in el[idx]) for idx in (i, j, k)))
+            else:
+                dofs = {0: 1, 1: 3, 2: 3, 3: 6, 5: 10, 6: 9}[g]
+                tan = lambda: ",".join(str(float(rng.randint(-2, 2))) for _ in range(dofs))
+                lines.append("c03x " + ",".join(repr(x) for x in el[i]) + " ; " + tan() + " ; " + tan() + " ; " + tan())
+        exe = V.build_one(*harness_jobs([(g, "d")])[0])
+        prog = os.path.join(workdir, f"lattice_g{g}.prog")
+        with open(prog, "w") as fh:
+            fh.write("\n".join(lines) + "\n")
+        out = os.path.join(workdir, f"lattice_g{g}.ndjson")
+        run_harness(exe, ["--prog", prog], out)
+        traces.append((out, {"family": "lie", "g": g, "sc": "d", "lattice": True, "prog": lines[:3]}))
+    oc.extra["lattice"]["all_pairs_replayed_for"] = exhaustive
+    return traces
+
+
 def bundle_layout_model(oc, tier, workdir):
     """C06 design model: index arithmetic of Bundle (prefix sums, Hessian block placement) checked by TLC for every
     composition up to MaxLen; two spec mutants must be rejected."""
@@ -174,6 +234,8 @@ def check(prop, tier, seed, replay=None):
             run_harness(exe, ["--fam", plan["fam"], "--n", str(cfg["n"]), "--seed", str(seed)], out)
             traces.append((out, {"family": "lie", "fam": plan["fam"], "g": g, "sc": sc, "n": cfg["n"], "seed": seed,
                                  "group": GROUPS[g]}))
+        if prop in ("C01", "C03"):
+            traces += lattice_traces(oc, prop, tier, seed, workdir)
         if prop == "C05":
             # generic helpers d_matrix_product / d2_fog (clauses C05.dprod, C05.fog)
             exe = V.build_one("derivs.cpp", [])
